@@ -272,6 +272,10 @@ class Type4Tag(nfc.tag.Tag):
             log.debug("ndef file read flag is %d", rf)
             log.debug("ndef file write flag is %d", wf)
 
+            if not self.tag._extended_length_support:
+                # short APDU fields carry at most 256 (Le) and 255 (Lc) bytes
+                mle, mlc = min(mle, 256), min(mlc, 255)
+
             self._max_le = mle
             self._max_lc = mlc
             self._capacity = mfs - tag + 2
